@@ -185,9 +185,11 @@ CHECKS.update({
     "C20": dict(
         text="The two axis transforms are regenerated from plotting.py and proved to be sqrt / square and exact mutual inverses on non-negative "
              "lists; profile selection is proved to pick exactly indices 0,k,2k,.. in order, rescaling to map the fracture value to 0 and the "
-             "initial value to 1, the rate stencil to be exact for quadratics. The helpers' Line2D data are read back under Agg and compared "
+             "initial value to 1, the rate stencil to be exact for quadratics. The data-path statements of the three reservoir helpers are matched one for one "
+             "on every run and emitted as Gallina (pp_lines, rf_line, rate_line); C20_helpers.v proves them equal to the hand model (selection, rescaling, "
+             "node positions 1/nx .. exactly 1, equally spaced; unrescaled y-data is a stored profile). The helpers' Line2D data are read back under Agg and compared "
              "with the simulated data and with the float instance of the Coq model.",
-        technique="Coq proof over translated transforms and hand model + Line2D data correspondence",
+        technique="Coq proof over translated transforms, statement-matched helper data paths and hand model + Line2D data correspondence",
         design_ref="6/C20"),
 })
 
